@@ -542,6 +542,10 @@ func (s *Super) writeReplay(v *Viol) string {
 	h := sha1.Sum([]byte(v.Key))
 	name := fmt.Sprintf("%s-%s.json", s.o.Prop.ID, hex.EncodeToString(h[:6]))
 	dir := filepath.Join(s.o.VerifDir, "replays")
+	if s.runTag != "" {
+		// self-test runs against scratch copies keep their replay files with their scratch directory
+		dir = filepath.Join(s.RunDir, "replays")
+	}
 	os.MkdirAll(dir, 0o755)
 	p := filepath.Join(dir, name)
 	rp := Replay{Property: s.o.Prop.ID, Tier: s.o.Tier, Seed: s.o.Seed, Unit: v.Unit, Key: v.Key, Kind: v.Kind,
